@@ -2,14 +2,16 @@
    Property theorems only; every proof is `exact <lemma>` (Proofs/C15_Proofs.v).
    The functions are the hand-written mirrors in Model/C15_Model.v that the
    correspondence check evaluates against the real fedjax functions on every run;
-   `pick` is the translated _pick_final_batch_size (shared with C03).
+   `pick` is the translated _pick_final_batch_size (shared with C03), and the model of
+   padded_batch_client_datasets is proved equal to the functions translated on this run
+   from its source text (C15_translated_is_model).
    Quantification: every row type A, every per-example preprocessor f, every
    sequence of client datasets (any sizes, empty ones included), every batch size
    >= 1, every bucket count, every buffer size >= 1, EVERY oracle (Lehmer code of the
    initial shuffle, list of randint draws), every base iterable. *)
 From Coq Require Import ZArith List Bool Permutation.
 From FV Require Import Common.ListX Common.PySem Common.Batch Model.C03_Model Proofs.C03_Proofs
-  Model.C15_Model Proofs.C15_Proofs.
+  Model.C15_Model gen.Gen_client_datasets_multi Proofs.C15_Proofs.
 Import ListNotations.
 Local Open Scope Z_scope.
 
@@ -76,6 +78,19 @@ Theorem C15_shuffle_batch_exactly_once : forall (bs B : Z) code draws (ds : list
 Proof. exact (@shuffle_batch_exactly_once A f). Qed.
 End C15.
 
+(* (T) padded_batch_client_datasets as translated from the source on this run -- initial
+   state, full mask, loop body with its nested while, epilogue -- is the model above *)
+Theorem C15_translated_is_model : forall {A} (zero : A) (pre : list A -> list A) bs nb (ds : list (cds A)),
+  gen_padded_batch_client_datasets zero pre bs nb ds = padded_batch_client_datasets zero pre bs nb ds /\
+  (forall st d, pbcd_step pre (S (length (d_rows d))) bs (pbcd_full_mask bs) st d = pstep pre bs st d) /\
+  (forall st, pbcd_finish zero pre bs nb (pbcd_full_mask bs) st = pfinish zero pre bs nb st) /\
+  pbcd_init = pinit (A:=A).
+Proof.
+  exact (fun A zero pre bs nb ds =>
+    conj (translated_is_model zero pre bs nb ds)
+      (conj (gen_step_spec pre bs) (conj (gen_finish_spec zero pre bs nb) gen_init_spec))).
+Qed.
+
 (* buffered shuffling is a permutation, for every buffer size >= 1 and every oracle *)
 Theorem C15_buffered_shuffle_perm : forall {A} (B : Z) code draws (src : list A), 1 <= B ->
   exists out, buffered_shuffle B code draws src false = SOk out /\ Permutation src out.
@@ -122,6 +137,7 @@ Print Assumptions C15_mismatch_rejected.
 Print Assumptions C15_mismatch_rejected_shuffle.
 Print Assumptions C15_mismatch_after_prefix.
 Print Assumptions C15_shuffle_batch_exactly_once.
+Print Assumptions C15_translated_is_model.
 Print Assumptions C15_buffered_shuffle_perm.
 Print Assumptions C15_repeatable_replays_first_pass.
 Print Assumptions C15_repeatable_whole_passes.
